@@ -349,3 +349,66 @@ impl Micro {
         Data { name: format!("micro-n{}p{}s{}-x{}-y{}", self.n, self.p, self.sigma, xi, yi), x, y_reg, y_bin, y_multi, unit: 1.0, off: 0.0 }
     }
 }
+
+// ------------------------------------------------------------------------------------------------
+// Extension (round 2): data sets for the "edge" family — fitted models whose state contains
+// legitimate boundary values (no / one pair of support vectors, single-leaf trees, all-zero
+// coefficients, rank-one data, ...). Base form like the catalogue (small non-negative integers,
+// labels 0..k-1), so that `variant` applies unchanged.
+
+/// Tags of the edge data sets (a subject lists the tags it is fitted on in the edge family).
+pub const EDGE_TAGS: [&str; 4] = ["plain", "two-rows", "const-target", "rank-one"];
+
+/// The edge catalogue: (tag, data set).
+/// * `plain`: the six catalogue data sets unchanged (for subjects whose CONFIGURATION is the
+///   boundary: k = n, eps wider than the target range, zero priors, max_depth 0, ...);
+/// * `two-rows`: two distinct training rows with different targets, p = 1, 2, 3 (thorough: + 5);
+/// * `const-target`: the features of the six catalogue data sets with every target
+///   constant — regression target 0 and 3 (two data sets per shape), a single class (label index 1
+///   / 2 of the variant's label alphabet);
+/// * `rank-one`: collinear rows (every column a multiple of the first), 5x2 and 4x3 (thorough: + 6x4).
+pub fn edge_catalogue(thorough: bool) -> Vec<(&'static str, Data)> {
+    let cat = catalogue();
+    let shapes: Vec<usize> = (0..cat.len()).collect();
+    let mut v: Vec<(&'static str, Data)> = Vec::new();
+    for &i in &shapes {
+        let mut d = cat[i].clone();
+        d.name = format!("edge-plain-{}", cat[i].name);
+        v.push(("plain", d));
+    }
+    let ps: Vec<usize> = if thorough { vec![1, 2, 3, 5] } else { vec![1, 2, 3] };
+    for p in ps {
+        let a: Vec<f64> = (0..p).map(|j| ((j + 1) % 3) as f64).collect();
+        let b: Vec<f64> = (0..p).map(|j| ((j + 2) % 3 + 1) as f64).collect();
+        v.push(("two-rows", Data { name: format!("edge-two-rows-p{}", p), x: vec![a, b], y_reg: vec![1.0, 3.0], y_bin: vec![0.0, 1.0], y_multi: vec![0.0, 2.0], unit: 1.0, off: 0.0 }));
+    }
+    for &i in &shapes {
+        for c in [0.0, 3.0] {
+            let n = cat[i].n();
+            v.push(("const-target", Data { name: format!("edge-const-target-{}-y{}", cat[i].name, c), x: cat[i].x.clone(), y_reg: vec![c; n], y_bin: vec![1.0; n], y_multi: vec![2.0; n], unit: 1.0, off: 0.0 }));
+        }
+    }
+    let r1: Vec<(usize, usize)> = if thorough { vec![(5, 2), (4, 3), (6, 4)] } else { vec![(5, 2), (4, 3)] };
+    for (n, p) in r1 {
+        let x: Vec<Vec<f64>> = (0..n).map(|i| (0..p).map(|j| (i * (j + 1)) as f64).collect()).collect();
+        v.push((
+            "rank-one",
+            Data {
+                name: format!("edge-rank-one-n{}p{}", n, p),
+                x,
+                y_reg: (0..n).map(|i| (2 * i + i % 2) as f64).collect(),
+                y_bin: (0..n).map(|i| if i >= n / 2 { 1.0 } else { 0.0 }).collect(),
+                y_multi: (0..n).map(|i| (i % 3) as f64).collect(),
+                unit: 1.0,
+                off: 0.0,
+            },
+        ));
+    }
+    v
+}
+
+/// The edge data sets a subject with the given tags is fitted on (in catalogue order), restricted
+/// to those with at least `min_p` columns.
+pub fn edge_data_for(tags: &[&'static str], min_p: usize, thorough: bool) -> Vec<Data> {
+    edge_catalogue(thorough).into_iter().filter(|(t, d)| tags.contains(t) && d.p() >= min_p).map(|(_, d)| d).collect()
+}
